@@ -433,7 +433,11 @@ def rand_ops(rng, cfg, nops):
         elif x < 0.86:
             at = [rand_attr(rng, c) for c in ALL if rng.random() < 0.5]
             v = ALL if rng.random() < 0.8 else "".join(c for c in ALL if rng.random() < 0.6) or "-"
-            ops.append("n,%d,%s,%s" % (s, v, ";".join(at) or "-"))
+            if rng.random() < 0.5:
+                ops.append("n,%d,%s,%s" % (s, v, ";".join(at) or "-"))
+            else:   # as the server does it: parse the next request, then http_response_config()
+                ops.append("N,%d,%s,%s" % (s, v, ";".join(at) or "-"))
+                ops.append("h,%d" % s)
         elif x < 0.90 and nslots < 4:
             ops.append("s")
             nslots += 1
@@ -548,9 +552,10 @@ def small_lines(cfgs, seqlen):
         n = len(cfg.nodes)
         used = set(cfg.comp_of(i) for i in range(1, n))
         alpha = ["k,0,%d" % i for i in range(1, n)] + \
-                ["a,0," + a for a in SMALL_ATTRS if a[0] in used] + ["z,0", "p,0,012", "h,0"]
+                ["a,0," + a for a in SMALL_ATTRS if a[0] in used] + ["z,0", "p,0,012", "h,0"] + \
+                ["N,0,%s,%s h,0" % (ALL, a) for a in SMALL_ATTRS[:3] if a[0] in used]
         for seq in itertools.product(alpha, repeat=seqlen):
-            if seq[-1][0] not in "kph":     # keep sequences that end in an observation
+            if seq[-1].split(" ")[-1][0] not in "kph":     # keep sequences that end in an observation
                 continue
             lines.append(make_line(cfg, [first] + list(seq)))
     return lines
@@ -619,7 +624,7 @@ def oracle(line, out, verbose=False):
             apply_attr(sl["at"], f[2])
         elif k == "v":
             sl["valid"] = set(f[2].replace("-", ""))
-        elif k == "n":
+        elif k in "nN":
             if f[3] != "-":
                 for a in f[3].split(";"):
                     apply_attr(sl["at"], a)
@@ -673,6 +678,8 @@ def classify(line, out):
     kinds, vals = set(), set()
     for ob in o[sep + 1:]:
         kinds.add(ob[:2] if ob[0] == "k" else ob[0])
+        if ob[0] in "ph":
+            kinds.add(ob[0] + ("+" if any(c != "0" for c in ob[1:ob.index("=")].replace(".", "")) else "0"))
         vals.update(ob.split("=")[-1])
     return "n%d:d%d:c%d:%s:%s" % (min(n, 7), min(depth, 3), min(chain, 3), "".join(sorted(kinds)),
                                   "".join(sorted(vals - {"-"})))
